@@ -311,7 +311,13 @@ func lexPattern(e *emitter, s string) {
 func suiteLex(g *gen, e *emitter, n int) {
 	for i := 0; i < n; i++ {
 		var s string
-		switch g.n(4) {
+		switch g.n(5) {
+		case 4:
+			if g.p(40) {
+				s = g.maximalPattern()
+			} else {
+				s = g.validPattern()
+			}
 		case 0:
 			s = g.validPattern()
 		case 1:
